@@ -52,6 +52,21 @@ pub fn verify_line(t: &[&str]) -> String {
     }
 }
 
+/// `vchals <ver> <x> <vhex> <pis> <phex>`: the challenges the REAL verifier derives for this statement and proof (hook
+/// `verif::take_verifier_challenges`): alpha beta gamma range logic fixed var z v vw u
+pub fn vchals_line(t: &[&str]) -> String {
+    let _ = dusk_plonk::verif::take_verifier_challenges();
+    let r = verify_line(t);
+    match dusk_plonk::verif::take_verifier_challenges() {
+        Some(c) => {
+            let names = ["alpha", "beta", "gamma", "rsep", "lsep", "fsep", "vsep", "z", "v", "vw", "u"];
+            let kv: Vec<String> = names.iter().zip(c.iter()).map(|(n, x)| format!("{}={}", n, fe_hex(x))).collect();
+            format!("{} {}", kv.join(" "), r.replace(' ', "_"))
+        }
+        None => format!("none {}", r.replace(' ', "_")),
+    }
+}
+
 pub fn vroundtrip_line(t: &[&str]) -> String {
     match hex_bytes(t[1]).map(|b| Verifier::try_from_bytes(&b)) {
         Some(Ok(v)) => format!("ok {}", bytes_hex(&v.to_bytes())),
